@@ -26,6 +26,88 @@ type Block struct {
 	version uint32
 }
 
+// checkSymbols verifies that every symbol and variable index used by the block
+// is defined by the given table (the default symbols plus the symbols declared
+// by the token up to and including this block). An index that no table entry
+// covers would be given a meaning by whatever a later block declares.
+func (b *Block) checkSymbols(symbols *datalog.SymbolTable) error {
+	defined := func(idx uint64) bool {
+		if idx < uint64(len(datalog.DEFAULT_SYMBOLS)) {
+			return true
+		}
+		return idx >= uint64(datalog.OFFSET) && idx-uint64(datalog.OFFSET) < uint64(symbols.Len())
+	}
+	var checkTerm func(t datalog.Term) error
+	checkTerm = func(t datalog.Term) error {
+		switch t.Type() {
+		case datalog.TermTypeString:
+			if !defined(uint64(t.(datalog.String))) {
+				return fmt.Errorf("%w: symbol %d", ErrMissingSymbols, uint64(t.(datalog.String)))
+			}
+		case datalog.TermTypeVariable:
+			if !defined(uint64(t.(datalog.Variable))) {
+				return fmt.Errorf("%w: variable %d", ErrMissingSymbols, uint64(t.(datalog.Variable)))
+			}
+		case datalog.TermTypeSet:
+			for _, e := range t.(datalog.Set) {
+				if err := checkTerm(e); err != nil {
+					return err
+				}
+			}
+		}
+		return nil
+	}
+	checkPredicate := func(p datalog.Predicate) error {
+		if !defined(uint64(p.Name)) {
+			return fmt.Errorf("%w: symbol %d", ErrMissingSymbols, uint64(p.Name))
+		}
+		for _, t := range p.Terms {
+			if err := checkTerm(t); err != nil {
+				return err
+			}
+		}
+		return nil
+	}
+	checkRule := func(r datalog.Rule) error {
+		if err := checkPredicate(r.Head); err != nil {
+			return err
+		}
+		for _, p := range r.Body {
+			if err := checkPredicate(p); err != nil {
+				return err
+			}
+		}
+		for _, e := range r.Expressions {
+			for _, op := range e {
+				if v, ok := op.(datalog.Value); ok {
+					if err := checkTerm(v.ID); err != nil {
+						return err
+					}
+				}
+			}
+		}
+		return nil
+	}
+	for _, f := range *b.facts {
+		if err := checkPredicate(f.Predicate); err != nil {
+			return err
+		}
+	}
+	for _, r := range b.rules {
+		if err := checkRule(r); err != nil {
+			return err
+		}
+	}
+	for _, c := range b.checks {
+		for _, q := range c.Queries {
+			if err := checkRule(q); err != nil {
+				return err
+			}
+		}
+	}
+	return nil
+}
+
 func (b *Block) Code(symbols *datalog.SymbolTable) string {
 	debug := &datalog.SymbolDebugger{
 		SymbolTable: symbols,
